@@ -59,6 +59,9 @@ def generate(seeds=(1, 2, 3), tier='quick'):
     g = GenFile(PID)
     stats = {}
     tl = tuples(tier, seeds[0])
+    from .. import fex as F, ex as X
+    fg = F.FGenFile(PID + 'X')
+    g.parts.append(fg)
     # sub-conditions that still carry an output-unit binding from an earlier (deprecated) set_impose_on: inside an ensemble the
     # position decides, column i belongs to sub-condition i
     stale = [(t, True) for t in tl if len(t) >= 2][:2 if tier == 'quick' else 12]
@@ -86,6 +89,19 @@ def generate(seeds=(1, 2, 3), tier='quick'):
             rv = list(sw.ctx.vars)
             g.thm_eq(f'{name}_c{i}_eq', rv, rv, f'{name}_c{i}', tree, rhs,
                      what=f'EnsembleCondition{tup}: column {i} equals sub-condition {i} ({kd}) applied to the network\'s output {i} alone')
+            # operation-order model: column i is, operation for operation, the sub-condition alone on output i (no arithmetic law needed)
+            try:
+                cF, c1 = X.Ctx(), X.Ctx()
+                cF.vars, c1.vars = list(sw.ctx.vars), list(w1.ctx.vars)
+                fcol = F.to_ftree(outs[0].cols[i], cF)
+                falone = F.to_ftree(alone.cols[0], c1)
+                target = 'F:' + (f'N.{i}' if k > 1 else 'N')
+                smap = {j_: cF.syms.index(target if nm == 'F:M' else nm) for j_, nm in enumerate(c1.syms)}
+                fg.add_def(f'{name}_c{i}_f', fcol, f'traced from /repo, operation for operation: EnsembleCondition{tup} column {i}; variables {cF.vars}; symbols {cF.syms}')
+                fg.thm_same_ops(f'{name}_c{i}_same_operations', f'{name}_c{i}_f', fcol, F.retarget(falone, c1.vars, cF.vars, smap),
+                                what=f'EnsembleCondition{tup}: column {i} performs exactly the operations of sub-condition {i} ({kd}) alone on output {i}')
+            except (F.Unsupported, ValueError) as e:
+                fg.skipped.append((f'{name}_c{i}', f'{type(e).__name__}: {e}'))
 
     # NoCondition: raw network output for any input/output width
     for n_in in range(1, 5):
@@ -157,6 +173,9 @@ def generate(seeds=(1, 2, 3), tier='quick'):
                          what=f'{base} with ith_unit={j}: equals the condition enforced on output {j} alone')
             except (KeyError, ValueError) as e:
                 g.failures.append((name, f'retarget failed: {e}'))
+    g.exact_info = dict(module='NdeVerif.Gen.C12X', theorems=len(fg.obligations), scenarios_outside_the_fragment=fg.skipped, not_reduced=[n for n, _ in fg.failures],
+                        meaning='every traced ensemble column is, operation for operation (decidable syntactic equality of the operation-order expressions), '
+                                'the sub-condition traced alone on that output unit: column-wise action holds bit for bit in any arithmetic')
     return g, stats
 
 
